@@ -158,6 +158,27 @@ FACTS = [
     ("mod", "ready",
      ["if ...{30} { $r . remove ( Ready :: HUP ) ; $r . remove ( Ready :: ERROR ) ; } if ! $r . is_empty ( ) { $empty = false ;"],
      "Mux::ready counts the HUP/ERROR bits of a hung-up backend as pending work again (spins until MAX_LOOP_ITERATIONS closes the session)"),
+    # the connection-level receive window (model crecv_step): enlarged once by icw - 65535 at both enlargement points,
+    # icw clamped to [65535, 2^31-1], credit returned at icw / 2 (both DATA paths)
+    ("h2", "writable",
+     ["if self . connection_config . initial_connection_window . saturating_sub ( 65535 ) > 0 && ! self . $once { "
+      "self . {queue_window_update} ( 0 , self . connection_config . initial_connection_window . saturating_sub ( 65535 ) ) ; } self . $once = true ;",
+      "if ! self . $once && self . connection_config . initial_connection_window . saturating_sub ( 65535 ) > 0 { "
+      "self . {queue_window_update} ( 0 , self . connection_config . initial_connection_window . saturating_sub ( 65535 ) ) ; } self . $once = true ;"],
+     "writable (frontend, after the preface) no longer enlarges the connection receive window once by initial_connection_window - 65535"),
+    ("h2", "handle_settings_frame",
+     ["if self . position . is_client ( ) && ! self . $once { self . $once = true ; "
+      "if self . connection_config . initial_connection_window . saturating_sub ( 65535 ) > 0 { "
+      "self . {queue_window_update} ( 0 , self . connection_config . initial_connection_window . saturating_sub ( 65535 ) ) ; } }"],
+     "handle_settings_frame (backend connection) no longer enlarges the connection receive window ONCE (every SETTINGS frame of the backend "
+     "would credit it initial_connection_window - 65535 bytes again)"),
+    ("h2", "handle_data_frame",
+     ["self . flow_control . $acc >= ( self . connection_config . initial_connection_window / 2 ) {",
+      "self . flow_control . $acc >= self . connection_config . initial_connection_window / 2 {"],
+     "handle_data_frame no longer returns connection credit once half of initial_connection_window was received (both paths)", 2),
+    ("h2", "new",
+     ["$icw . clamp ( 65535 , 2147483647 )", "$icw . max ( 65535 ) . min ( 2147483647 )"],
+     "H2ConnectionConfig::new no longer clamps initial_connection_window to [65535, 2^31-1]"),
     ("converter", "call",
      ["self . window -= i32 :: try_from ( $n ) . unwrap_or ( 2147483647 ) ;"],
      "converter DATA arm no longer subtracts the payload from its window"),
@@ -397,7 +418,7 @@ def extra_stage(tier, rng, work):
     # part 2: receiver-side credit (padded DATA, exact client ledger of both windows) and the backend's
     # MAX_CONCURRENT_STREAMS (cancelled request, limit lowered to 0 on an idle connection, burst of requests
     # attached while the backend was still connecting); the scripted backend keeps the RFC 9113 5.1 stream states
-    runs2 = [["pad", "600", "10", "255"], ["tiny", "6000", "10", "255"], ["shrink"], ["cancel"], ["mcs0"], ["burst", "4"]]
+    runs2 = [["pad", "600", "10", "255"], ["tiny", "6000", "10", "255"], ["shrink"], ["cancel"], ["mcs0"], ["burst", "4"], ["resettings"]]
     if tier == "thorough":
         runs2 += [["pad", "300", "1", "255"], ["pad", "200", "16000", "100"], ["burst", "8"]]
     for a in runs2:
